@@ -11,7 +11,7 @@ import sj
 PROP = 'C20'
 THEOREMS = ['C20_collision_rejected', 'C20_input_order_result', 'C20_order_dependence_refuted', 'C20_type_name_example', 'C20_examples']
 RULE = ('sets of 2-4 named schemas (chains, diamonds, cycles, cross-namespace references, nested definitions, conflicting '
-        'duplicates, dangling references) x all permutations (up to 24) x 3 runs in separate processes. non-trivial = distinct '
+        'duplicates, dangling references, a simple name shadowed by a null-namespace type of the same name) x all permutations (up to 24) x 3 runs in separate processes. non-trivial = distinct '
         'sets with at least one cross reference that parse')
 
 def gen_set(r):
@@ -101,6 +101,17 @@ def gen(tier, seed):
     sets.append(([{'type': 'record', 'name': 'A', 'fields': [{'name': 'i', 'type': {'type': 'fixed', 'name': 'q.Inner', 'size': 2}}]},
                   {'type': 'record', 'name': 'B', 'fields': [{'name': 'u', 'type': 'q.Inner'}]}], None, 'nested'))
     sets.append(([{'name': 'A', 'type': {'type': 'record', 'name': 'B', 'fields': []}}, {'type': 'fixed', 'name': 'C', 'size': 1}], None, 'type-object'))
+    # a simple name used inside a namespace while the set also holds that simple name in the null namespace: the
+    # reference means <namespace>.<name> whatever else the set contains and in whatever order it is processed
+    for q, (ns, wrap) in enumerate([('x', 0), ('x', 1), ('a.b', 2), ('x', 3)]):
+        t = ['B', ['null', 'B'], {'type': 'array', 'items': 'B'}, {'type': 'map', 'values': 'B'}][wrap]
+        A = {'type': 'record', 'name': 'A', 'namespace': ns, 'fields': [{'name': 'b', 'type': t}]}
+        Bnull = [{'type': 'record', 'name': 'B', 'fields': [{'name': 'n', 'type': 'int'}]}, {'type': 'enum', 'name': 'B', 'symbols': ['N']},
+                 {'type': 'fixed', 'name': 'B', 'size': 1}][q % 3]
+        Bns = {'type': 'record', 'name': 'B', 'namespace': ns, 'fields': [{'name': 's', 'type': 'string'}]}
+        sets.append(([A, Bnull], 'err', 'shadow-dangling'))
+        sets.append(([A, Bns, Bnull], 'ok', 'shadow-both'))
+        sets.append(([A, Bns, Bnull, {'type': 'record', 'name': 'C', 'fields': [{'name': 'b', 'type': 'B'}, {'name': 'a', 'type': ns + '.A'}]}], 'ok', 'shadow-both'))
     for i in range(n):
         sets.append(gen_set(rng.fork(i)))
     return sets
